@@ -279,6 +279,9 @@ pub fn c02_leaves() -> Vec<Rule> {
         Rule::normal("Y", vec![Directive::String, Directive::NoSkipWs], seq(vec![lit("b"), opt(lit("c"))])),
         Rule::normal("Inc", vec![], seq(vec![field("f", "X"), opt(seq(vec![lit("c"), field("g", "Y")]))])),
         Rule::normal("N", vec![], seq(vec![field("f", "X"), opt(field("h", "Y"))])),
+        // plain rules that can match the empty string: their presence is visible in the tree (Some(Q) vs None)
+        Rule::normal("Q", vec![], opt(lit("c"))),
+        Rule::normal("QL", vec![], star(field("i", "X"))),
     ]
 }
 
@@ -296,14 +299,17 @@ pub fn bundles() -> Vec<(&'static str, Expr)> {
         ("char", field("c", "char")),
         ("optpair", opt(seq(vec![field("f", "X"), field("g", "Y")]))),
         ("altpair", choice(vec![field("f", "X"), field("g", "Y")])),
+        ("nullable-pair", opt(seq(vec![field("q", "Q"), field("r", "QL")]))),
+        ("nullable-nested", opt(opt(field("q", "Q")))),
+        ("nullable-closure-of-opt", seq(vec![opt(seq(vec![field("q", "Q"), field("f", "X")])), opt(seq(vec![field("r", "QL"), field("q", "Q")]))])),
     ]
 }
 
 pub fn c02(tier: Tier) -> Vec<Case> {
     let mut b = Builder::new();
     let leaves = c02_leaves();
-    let full_atoms = vec![field("f", "X"), field("g", "X"), field("f", "Y"), bfield("f", "X"), field("c", "char"), rref("X"), lit("b"), inc("Inc")];
-    let small_atoms = vec![field("f", "X"), field("g", "Y"), field("f", "Y"), lit("b")];
+    let full_atoms = vec![field("f", "X"), field("g", "X"), field("f", "Y"), bfield("f", "X"), field("c", "char"), rref("X"), lit("b"), inc("Inc"), field("q", "Q")];
+    let small_atoms = vec![field("f", "X"), field("g", "Y"), field("f", "Y"), lit("b"), field("q", "Q")];
     let over_atoms = vec![over("X"), over("Y"), bover("X"), lit("b"), over("char")];
     let (k_full, k_small, k_over, k_ctx, len) = match tier {
         Tier::Quick => (3, 4, 3, 3, 4),
@@ -381,19 +387,22 @@ pub fn c04(tier: Tier) -> Vec<Case> {
         ilit("a"),
         ilit("ab"),
         ilit("k"),
+        ilit("ak"),
+        ilit("ki"),
         rref("char"),
         field("c", "char"),
         field("d", "D"),
         field("s", "S"),
         field("t", "T"),
     ];
-    let small_atoms = vec![lit("é"), range('a', 'é'), ilit("k"), field("c", "char"), field("s", "S")];
+    let small_atoms = vec![lit("é"), range('a', 'é'), ilit("ki"), field("c", "char"), field("s", "S")];
     let (k_full, k_small, len) = match tier {
         Tier::Quick => (2, 3, 3),
         Tier::Thorough => (3, 4, 4),
     };
     // 香 = E9 A6 99 and 中 = E4 B8 AD: their lead bytes are the code points of é and ä
-    let alphabet = vec!['a', 'k', 'K', 'é', 'è', '©', '€', '😀', ' ', '\u{212A}', '香', '中'];
+    // U+212A KELVIN SIGN lower-cases to k (3 bytes -> 1), U+0130 to i + U+0307 (2 bytes -> 3)
+    let alphabet = vec!['a', 'k', 'K', 'i', 'é', 'è', '©', '€', '😀', ' ', '\u{212A}', '\u{130}', '香', '中'];
     let inputs = InputSpec::Strings { alphabet, max_len: len };
     let mut all: Vec<Expr> = trees(&atoms, &ALL_OPS, k_full);
     for t in trees_by_size(&small_atoms, &ALL_OPS, k_small).into_iter().skip(k_full) {
@@ -443,8 +452,11 @@ pub fn c08(tier: Tier) -> Vec<Case> {
         field("v", "V"),
         field("t", "T"),
         field("i", "Item"),
+        lit(" b"),
+        lit("\t"),
+        lit("_c"),
     ];
-    let small_atoms = vec![lit("b"), field("f", "X"), field("c", "char"), inc("Inc"), field("i", "Item")];
+    let small_atoms = vec![lit("b"), field("f", "X"), field("c", "char"), inc("Inc"), field("i", "Item"), lit(" b")];
     let mut all: Vec<Expr> = trees(&atoms, &ALL_OPS, k);
     for t in trees_by_size(&small_atoms, &NO_LOOKAHEAD_OPS, k_small).into_iter().skip(k) {
         all.extend(t);
@@ -518,9 +530,16 @@ pub fn c09(tier: Tier) -> Vec<Case> {
     let all = trees(&atoms, &NO_LOOKAHEAD_OPS, k);
     // every subset of {X, S, N(+its child), Root} marked @position; E is an enum override of @position rules
     for e in &all {
-        for mask in subsets(3) {
+        for mask in subsets(4) {
             for root_noskip in [false, true] {
-                let p = |bit: u32| if mask & (1 << bit) != 0 { vec![Directive::Position] } else { vec![] };
+                let memo = mask & 8 != 0;
+                let p = |bit: u32| {
+                    let mut v = if mask & (1 << bit) != 0 { vec![Directive::Position] } else { vec![] };
+                    if memo {
+                        v.push(Directive::Memoize);
+                    }
+                    v
+                };
                 let leaves = vec![
                     Rule::normal("X", p(0), seq(vec![lit("b"), opt(lit("c"))])),
                     Rule::normal("S", [vec![Directive::String], p(1)].concat(), seq(vec![lit("é"), opt(lit("b"))])),
@@ -532,6 +551,9 @@ pub fn c09(tier: Tier) -> Vec<Case> {
                 let mut dirs = vec![Directive::Export, Directive::Position];
                 if root_noskip {
                     dirs.push(Directive::NoSkipWs);
+                }
+                if memo {
+                    dirs.push(Directive::Memoize);
                 }
                 let g = root_grammar(dirs, e.clone(), &leaves);
                 add_if_wf(&mut b, &format!("pos/mask{mask}/{}", if root_noskip { "noskip" } else { "skip" }), g, &inputs);
